@@ -70,7 +70,7 @@ def explore(ctx):
         "disagreements": ndis,
         "faults_detected_with_expected_kind": detected,
         "property_failures": wrong_kind,
-        "rule": "valid random programs with one injected fault: 8 fault kinds x 6 calling contexts (direct, tail call "
+        "rule": "valid random programs with one injected fault (one type / non-procedure fault in five with an offending value that prints 70-300 bytes long and holds 2-, 3- and 4-byte characters at random offsets): 8 fault kinds x 6 calling contexts (direct, tail call "
                 "of a procedure, through apply, from a (scheme base) procedure, inside a derived form, after / as a self tail call of "
                 "a procedure that has re-entered itself) x %d seeds, an "
                 "effect completed before the fault in the same form, followed by forms that read the state; per form: "
